@@ -84,7 +84,7 @@ class RtlReader(object):
                 frame_end = frame_start + frame_length
                 frame_pulses = self.signal_buffer[frame_start:frame_end]
 
-                threshold = max(frame_pulses) * 0.2
+                threshold = max(frame_pulses) * 0.32  # ~10 dB below the pulses
 
                 msgbin: list[int] = []
                 for j in range(0, frame_length, 2):
